@@ -60,6 +60,37 @@ Theorem write_read_write_partial : forall sy s,
 Proof. exact FileProofs.write_read_write_partial. Qed.
 Print Assumptions write_read_write_partial.
 
+(* the same with hypotheses on the INPUT state only: the raster attributes are the values of the raster definitions
+   (distinct keys, as in a dict) and print exactly with 9 digits; the rasters are not 0; every RF delay, rounded to
+   the RF raster, prints exactly with 6 digits (below 1 s on a 1 us raster: KF-5 otherwise); ADC rows are complete.
+   What the reading system is does not matter. *)
+Theorem write_read_write : forall sy s,
+  rasters_in_defs s -> ~ f_braster s == 0 -> ~ f_rfraster s == 0 -> rf_delays_exact s -> adc_rows_full s ->
+  write_rows (read_rows sy (write_rows s)) = write_rows s.
+Proof. exact FileProofs.write_read_write. Qed.
+Print Assumptions write_read_write.
+
+Definition wrw_example : fstate :=
+  mkF [(key_rf_raster, [1 # 1000000]); (key_block_raster, [1 # 100000]); ([70; 79; 86]%Z, [1 # 4; 1 # 4; 3 # 1000])]
+      [[1; 3 # 1000; 1; 0; 0; 0; 0; 0]] [[1; 123456789 # 1000; 1; 2; 0; 100 # 1000000; 0; 1 # 3]]
+      [(tag_t, [1; 1234567 # 1; 1 # 10000; 1 # 1000; 1 # 10000; 0])] [[1; 256; 1 # 100000; 1 # 50000; 0; 0; 1 # 100000]] [] [] [] []
+      [[1; 2; 1; 1 # 3]; [2; 2; 0; 0]] (1 # 100000) (1 # 1000000) (1 # 100000) (1 # 10000000).
+Example write_read_write_hypotheses_hold :
+  rasters_in_defs wrw_example /\ ~ f_braster wrw_example == 0 /\ ~ f_rfraster wrw_example == 0 /\
+  rf_delays_exact wrw_example /\ adc_rows_full wrw_example.
+Proof.
+  split; [|split; [|split; [|split]]].
+  - constructor.
+    + cbn. repeat constructor; cbn; intuition discriminate.
+    + exists (1 # 100000). repeat split; vm_compute; reflexivity.
+    + exists (1 # 1000000). repeat split; vm_compute; reflexivity.
+  - intro H. discriminate H.
+  - intro H. discriminate H.
+  - unfold rf_delays_exact. cbn [f_rf wrw_example f_rfraster]. constructor; [|constructor].
+    cbn [row_exact sec_rf]. repeat split; intro R; try (vm_compute in R; discriminate R).
+  - unfold adc_rows_full. cbn. constructor; [cbn; lia|constructor].
+Qed.
+
 (* duplicate removal vs printing, column by column over the generated digit tuples and formats:
    1 = printed on exactly the grid duplicate removal rounds to, 2 = id column, 3 = same number of significant
    digits on both sides, 4 = RF delay (raster rounding + scaling in between).  A changed digit tuple or format
